@@ -7,7 +7,7 @@ D=$(mktemp -d /tmp/mut.XXXXXX)
 trap 'rm -rf "$D"' EXIT
 rsync -a --exclude .git --exclude __pycache__ /repo/ "$D/"
 if [ "$P" = "-" ]; then patch -s -p1 -d "$D" || exit 3; else patch -s -p1 -d "$D" < "$P" || exit 3; fi
-( cd "$D" && /venv/bin/python -m pytest -q -p no:cacheprovider --continue-on-collection-errors -x -q 2>&1 | tail -3 )
+( cd "$D" && /venv/bin/python -m pytest -q -p no:cacheprovider --continue-on-collection-errors 2>&1 | tail -1 )
 for id in $ID; do
   VERIF_REPO="$D" /verif/check "$id" "$TIER" 2>&1 | grep -E "VIOLATION|HARNESS|KNOWN|wall=" | cut -c1-400
 done
